@@ -39,6 +39,18 @@ Oracles (clause of the statement -> oracle):
                     predict identically": all four model classes, three constructor forms, explicit / default theta.
   C08/forwarding    Model.fit and Fitter.__call__ hand every argument to the fitting function unchanged (recording stub).
 
+Input classes (they key the findings; every class is a property of the INPUT computed without repo code):
+  weighted fitters: sigma_k-none | sigma_k-given,single-train | sigma_k-given,multi-train; for fit_optimize in addition
+  optimum-nonnegative | optimum-with-negative-weight (sign pattern of the independently computed unconstrained maximiser);
+  fit_interpolate: optimum-at-basis-rdm | optimum-inside-segment (location of the best mixture on the spec grid);
+  predictions: fixed | fixed,multi-rdm | select | weighted,theta-* | interpolate,theta-default/nonneg/convex/signed.
+Failing on the unchanged tree (details, concrete inputs and repairs in C08_findings.md): fit_regress and fit_regress_nn on
+sigma_k-given,multi-train; fit_optimize on sigma_k-none,optimum-with-negative-weight and on the sigma_k-given classes;
+fit_optimize_positive on both sigma_k-given classes; fit_interpolate on optimum-at-basis-rdm; predictions on
+interpolate,theta-default, interpolate,theta-signed and fixed,multi-rdm.  All other classes hold.
+An all-zero weight vector is scored 0 (the library's convention for a zero prediction) and is accepted from a fitter iff no
+admissible competitor reaches a score > 1e-6 ("unit norm unless zero").
+
 NOT covered by this tier: ridge_weight != 0; rank-based / Riemannian / Bures criteria; 1-D sigma_k; training RDMs whose
 missing entries differ from those of the (selected) prediction (the library rejects them); optimality against ALL
 competitors (only the finite competitor sets above, tolerance 1e-6) -- the for-all statement for the closed-form fitters
